@@ -206,7 +206,18 @@ class Node(object):
             Rn = n.to_json_data()
         except Exception as e:
             return {"ok": False, "stage": "normalize", "why": type(e).__name__ + ":" + str(e)[:120]}
-        return {"ok": True, "R": doc_to_wire(R), "Rn": doc_to_wire(Rn)}
+        out = {"ok": True, "R": doc_to_wire(R), "Rn": doc_to_wire(Rn)}
+        # J4 (C07 on the consumer side): n was obtained by normalizing; its document, after a real
+        # serialize/parse cycle, must load back to data equal to n
+        try:
+            y = self.CD.from_json_data(json.loads(out["Rn"]))
+            fa, fb = fp.data_fp(n), fp.data_fp(y)
+            out["rt_ok"] = bool(y == n and n == y) and fa == fb
+            out["rt_where"] = None if out["rt_ok"] else (fp.diff_path(fa, fb) or "eq")
+        except Exception as e:
+            out["rt_ok"] = False
+            out["rt_where"] = "raises:" + type(e).__name__
+        return out
 
     def rpc_schema(self, p):
         return {"ok": True, "schema": self.cd.JSON_SCHEMA}
